@@ -42,6 +42,7 @@ Blame ==
   @@ "exit.loop"  :> {"C03"}
   @@ "exit.loop.closed" :> {"C03", "C05"}
   @@ "exit.loop.callback" :> {"C03"}
+  @@ "exit.loop.callback.stream" :> {"C03", "C13", "C17"}
   @@ "cb.pb.undrained.mailbox" :> {"C04", "C05", "C03"} @@ "cb.pb.undrained.ctx" :> {"C04", "C03"} @@ "cb.pb.undrained.parent" :> {"C16"}
   @@ "cb.pb.undrained.timer" :> {"C10", "C03"} @@ "cb.pb.undrained.broker" :> {"C09"} @@ "cb.pb.undrained.stream" :> {"C13"}
   @@ "hb.phase.failed.timeout" :> {"C11", "C06"} @@ "hb.phase.failed.panic" :> {"C06", "C03"} @@ "hb.phase.failed.startErr" :> {"C06", "C03"}
